@@ -35,6 +35,11 @@ CHECKS = {
         technique="deterministic simulation with link-time seal probes: every AEAD seal / CBC record encryption of seeded TLS and DTLS (loss, retransmission, alert, resumption) histories is audited for nonce reuse, sequence monotonicity and IV freshness against the simulated entropy log",
         text="Probes around psAes*GCM, psChacha20Poly1305Ietf* and psAesEncryptCBC record key digest, nonce, AAD and plaintext digests for every seal of every session; the audit runs over the whole recorded history of each simulated run "
              "(TLS data/alert/closure/replay/resumption/TLS 1.3 phases; DTLS with drop/dup/delay-driven retransmission of encrypted flights and replays). CBC explicit IVs on the wire must be encryptions of fresh, never reused 16-byte draws of the simulated entropy source."),
+    "C14": dict(engine="hist", level="exploration", design="10/C14",
+        technique="deterministic simulation of multi-connection histories on a simulated clock with a reference model of issued resumption state; seeded clock jumps, cache pressure, key rotation and byte edits of stored client state",
+        text="Histories over three clients, one server key set and a foreign one: full / resumed (id, RFC 5077 ticket, TLS 1.3 PSK) connections, clock advances from seconds to 60 days, fatal alerts, dirty closes, cache pressure, ticket-key add/remove, "
+             "byte-level edits of ids/tickets/identities, re-offers under other suite/version/EMS; fixed aimed histories sweep clock jumps and every byte of the ticket header. Oracle: whenever the server completes as resumed the presented identifier must be one this server issued, "
+             "unexpired, not invalidated, key still loaded, same version/suite/EMS and same secret."),
 }
 
 NOT_APPLICABLE = [
